@@ -226,7 +226,9 @@ Proof.
     + unfold change. rewrite gett_modt. destruct (Nat.eqb aux a && _) eqn:E; [|exact Hd4].
       apply andb_true_iff in E. destruct E as [E _]. apply Nat.eqb_eq in E. subst a. exact Hd4.
     + exact Hc.
-  - match type of H with (match crashed ?W with _ => _ end) = _ => set (W4 := W) in * end.
+  - destruct (match main (gett w aux) with Some (mt, m) => negb (Nat.eqb mt a && Nat.eqb m mf) | None => false end);
+      [inversion H|].
+    match type of H with (match crashed ?W with _ => _ end) = _ => set (W4 := W) in * end.
     destruct (crashed W4) eqn:Hc; [inversion H|].
     destruct (done (gett W4 aux)) eqn:Hd4; [inversion H|].
     inversion H; subst w'. split; assumption.
@@ -249,6 +251,12 @@ Proof.
   inversion H; subst w'. unfold change in *. rewrite modt_length in Hl.
   rewrite gett_modt. rewrite Nat.eqb_refl. apply Nat.ltb_lt in Hl. rewrite Hl. reflexivity.
 Qed.
+
+(* an auxiliary that is running for ANOTHER frame (a shared original) is not ours: the clause is a no-op *)
+Lemma suspend_foreign_running_noop sub a mf ns aux w mt m :
+  done (gett w aux) = false -> main (gett w aux) = Some (mt, m) -> (Nat.eqb mt a && Nat.eqb m mf) = false ->
+  suspend P sub a mf ns aux w = (w, false).
+Proof. intros Hd Hm He. unfold suspend. rewrite Hd, Hm, He. reflexivity. Qed.
 
 (* once it is running, what the clause does no longer depends on its conditions *)
 Lemma suspend_running_ignores_conditions sub a mf ns ns' aux w :
